@@ -66,75 +66,105 @@ func valueCellOf(v ssa.Value) (base ssa.Value, ok bool) {
 func runC14(r *Report) {
 	p := r.P
 	const rg = "nil-guards"
-	r.Rule(rg, 4, "in every mutating entry point of the memstore (upsertInternal, deleteInternal, Tombstone) the nil test of the key (and of the value, where there is one) returns KeyNil / ValueNil and neither a mutation nor a lookup is reachable from its nil edge: a nil key compares equal to the empty key, so an unchecked Delete(nil) acts on the empty key's entry and Tombstone(nil) stores an entry under a nil key")
+	r.Rule(rg, 7, "for every mutating entry point of the memstore (Add, Upsert, Delete, DeleteIfExists, Tombstone) the nil test of the key (and of the value, where there is one) returns KeyNil / ValueNil, and neither a mutation nor a lookup is reachable without having passed its non-nil edge — in the entry point itself or in the helper the argument is handed to: a nil key compares equal to the empty key, so an unchecked Delete(nil) acts on the empty key's entry and Tombstone(nil) stores an entry under a nil key")
+	isMut := func(s Site) bool {
+		switch x := s.Instr.(type) {
+		case *ssa.Store:
+			if _, ok := valueCellOf(x.Addr); ok {
+				return true
+			}
+			if _, f, _, ok := fieldAddrName(x.Addr); ok && f == "estimatedSize" {
+				return true
+			}
+		case *ssa.Call:
+			if strings.HasSuffix(CalleeKey(x), "MapI.Insert") || strings.HasSuffix(CalleeKey(x), "MapI.Get") {
+				return true
+			}
+		}
+		return false
+	}
+	// guarded: every lookup / mutation reachable in fn (and in the module callees that are handed the parameter) lies
+	// behind the non-nil edge of a nil test of the parameter whose nil edge returns the sentinel
+	var guarded func(fn *ssa.Function, par *ssa.Parameter, want string, depth int) (bool, string)
+	guarded = func(fn *ssa.Function, par *ssa.Parameter, want string, depth int) (bool, string) {
+		if fn == nil || fn.Blocks == nil || depth > 3 {
+			return false, "helper chain too deep"
+		}
+		removed := map[Edge]bool{}
+		for _, b := range liveBlocks(fn) {
+			if v, nilS, nn, ok := nilTest(b); ok {
+				if po := paramOrigin(v); po == par {
+					removed[Edge{b, nn}] = true
+					if returnedSentinel(nilS) != want {
+						return false, "the rejection does not return " + want
+					}
+				}
+			}
+		}
+		why := ""
+		ok := true
+		eachInstr(fn, func(s Site) {
+			if !ok || !siteReachable(s, removed) {
+				return
+			}
+			if isMut(s) {
+				ok, why = false, "a lookup or mutation is reachable with a nil "+par.Name()+" ("+p.Pos(s.Pos())+")"
+				return
+			}
+			c, isC := s.Instr.(*ssa.Call)
+			if !isC {
+				return
+			}
+			sc := c.Call.StaticCallee()
+			if sc == nil || !inModule(sc) {
+				return
+			}
+			for i, a := range c.Call.Args {
+				if paramOrigin(a) == par && i < len(sc.Params) {
+					if g, w := guarded(genericBody(sc), genericBody(sc).Params[i], want, depth+1); !g {
+						ok, why = false, w
+					}
+				}
+			}
+		})
+		return ok, why
+	}
 	for _, spec := range []struct {
 		fn     string
 		params []string
 	}{
-		{"memstore.upsertInternal", []string{"key", "value"}},
-		{"memstore.deleteInternal", []string{"key"}},
+		{"memstore.MemStore.Add", []string{"key", "value"}},
+		{"memstore.MemStore.Upsert", []string{"key", "value"}},
+		{"memstore.MemStore.Delete", []string{"key"}},
+		{"memstore.MemStore.DeleteIfExists", []string{"key"}},
 		{"memstore.MemStore.Tombstone", []string{"key"}},
 	} {
 		fn := r.NeedFunc(rg, spec.fn)
 		if fn == nil {
 			continue
 		}
-		var muts []Site
-		eachInstr(fn, func(s Site) {
-			switch x := s.Instr.(type) {
-			case *ssa.Store:
-				if _, ok := valueCellOf(x.Addr); ok {
-					muts = append(muts, s)
-				}
-				if _, f, _, ok := fieldAddrName(x.Addr); ok && f == "estimatedSize" {
-					muts = append(muts, s)
-				}
-			case *ssa.Call:
-				if strings.HasSuffix(CalleeKey(x), "MapI.Insert") || strings.HasSuffix(CalleeKey(x), "MapI.Get") {
-					muts = append(muts, s)
-				}
-			}
-		})
 		for _, pname := range spec.params {
 			key := rg + "/" + spec.fn + "/" + pname
-			var nonNil []Edge
-			var nilEdges []Edge
-			for _, b := range liveBlocks(fn) {
-				if v, nilS, nn, ok := nilTest(b); ok {
-					if po := paramOrigin(v); po != nil && refName(po) == pname {
-						nonNil = append(nonNil, Edge{b, nn})
-						nilEdges = append(nilEdges, Edge{b, nilS})
-					}
+			var par *ssa.Parameter
+			for _, q := range fn.Params {
+				if refName(q) == pname {
+					par = q
 				}
 			}
-			if len(nonNil) == 0 {
-				r.Bad(rg, key, fn.Pos(), "a nil "+pname+" is not rejected before the memstore is consulted or mutated")
+			if par == nil {
+				r.Unk(rg, key, fn.Pos(), "parameter "+pname+" not found")
 				continue
 			}
-			removed := map[Edge]bool{}
-			for _, e := range nonNil {
-				removed[e] = true
-			}
-			bad := false
-			for _, m := range muts {
-				if siteReachable(m, removed) {
-					bad = true
-				}
-			}
 			want := map[string]string{"key": "memstore.KeyNil", "value": "memstore.ValueNil"}[pname]
-			for _, e := range nilEdges {
-				if returnedSentinel(e.To) != want {
-					bad = true
-				}
-			}
-			if bad {
-				r.Bad(rg, key, fn.Pos(), "a lookup or mutation is reachable with a nil "+pname+" or the rejection does not return "+want)
-			} else {
+			if g, why := guarded(fn, par, want, 0); g {
 				r.OK(rg, key, fn.Pos(), "nil "+pname+" → "+want+" before any lookup or mutation")
+			} else {
+				r.Bad(rg, key, fn.Pos(), "a nil "+pname+" is not rejected before the memstore is consulted or mutated: "+why)
 			}
 		}
 	}
 
+	ruleDeleteIgnoresTombstoneState(r)
 	const ra = "accounting"
 	r.Rule(ra, 5, "every store to MemStore.estimatedSize is an exact affine update paired on all paths with one mutation of a stored value; every mutation site has one; nothing else writes the estimate")
 	type mut struct {
